@@ -7,11 +7,18 @@ C16_build_no_null_string C16_apply_ok C16_apply_fail_index C16_apply_cases C16_e
 C16_apply_rollback C16_apply_rollback_state C16_reverse_apply_reversed_list C16_reverse_apply_partial
 C16_apply_build_infos_partial C16_entries_commute C16_reverse_apply C16_build_distinct_slots C16_apply_build_core
 C16_apply_build C16_reverse_apply_build C16_reverse_apply_to_B C16_apply_build_needs_keys_nodup_witness C16_F13c_witness C16_rollback_needs_distinct_names_witness
-C16_reverse_apply_chain_witness""".split()]
+C16_reverse_apply_chain_witness
+C16_diffxml_roundtrip C16_diffxml_roundtrip_bytes C16_diffxml_export_too_complex C16_diffxml_export_order
+C16_diffxml_import_total C16_diffxml_import_order C16_diffxml_import_prefix
+C16_diffxml_build_roundtrip C16_diffxml_build_ret1_einval C16_diffxml_import_attr_order""".split()]
 CHECK_MODULES = ["Hw.Props.C16"]
 TRUSTED = ["the observation function of harness/h_diff.c (DFS dump of names, infos, local/total memory, keys, and the opaque "
            "shape tokens standing for type/subtype/os_index/sets/attribute bytes/allowed sets/distances/memattrs/cpukinds)",
-           "XML export/load of diffs is not modelled in Lean: the round trip (entries and refname) is checked on the C side only"]
+           "diff XML: the token level (attribute name/value lists per element) is what the Lean model of the exporter/importer speaks; "
+           "the nolibxml text layout and attribute scanner are modelled down to bytes (exact text compared on every nolibxml export), "
+           "libxml2's serialiser/parser are trusted to carry the tokens (a repeated attribute name rejects the document, an empty value "
+           "arrives as \"\"); the small XML scanner/writer of harness/h_diff.c; glibc atoi = (int)strtol(s,0,10) and strtoull(s,0,0) "
+           "are modelled (Hw.Io.XmlDiff) and exercised with boundary strings on every run"]
 ASSUMPTIONS = ["topologies are well-formed (C01): (depth, logical_index) identifies an object (KeysInj) and the parent chain is the "
                "ancestor list; malloc/strdup never fail",
                "whole-tree apply-after-build theorems: KeysNodup (no two objects of the tree share a key), DepthsBelowNbl (no object "
@@ -25,8 +32,10 @@ ASSUMPTIONS = ["topologies are well-formed (C01): (depth, logical_index) identif
                "hand-built diff lists handed to apply contain no NULL strings (strcmp/strdup(NULL) is undefined); build is proved "
                "and checked never to produce one"]
 MODELLED = ("modelled: hwloc/diff.c complete (hwloc_diff_trees, hwloc_topology_diff_build with flags 0 on loaded topologies, "
-            "hwloc_apply_diff_one, hwloc_topology_diff_apply incl. the cancel loop and the REVERSE flag); exercised but not modelled: "
-            "hwloc_topology_diff_export_xmlbuffer/load_xmlbuffer (topology-xml*.c), hwloc_topology_diff_destroy, "
+            "hwloc_apply_diff_one, hwloc_topology_diff_apply incl. the cancel loop and the REVERSE flag); the diff part of topology-xml.c "
+            "(hwloc__xml_export_diff, hwloc__xml_import_diff_one, hwloc__xml_import_diff, the TOO_COMPLEX pre-check of the export entry "
+            "points, the refname loops of the nolibxml/libxml import_diff callbacks, hwloc___nolibxml_prepare_export_diff's text); "
+            "exercised but not modelled: the file variants (export_xml/load_xml), libxml2 itself, hwloc_topology_diff_destroy, "
             "EINVAL/EPERM argument checks (not loaded, adopted shmem, bad flags), allocation failure")
 
 def run_engines(tier, seed):
